@@ -73,7 +73,13 @@ TraceBuildPlain == /\ IsEvent("BuildPlain")
 TraceReadOk == IsEvent("ReadOk") /\ Rec[l].res = "equal" /\ UNCHANGED <<bufs, built, drift, cache>>
 TraceConcDone == IsEvent("ConcDone") /\ Rec[l].ok /\ UNCHANGED <<bufs, built, drift, cache>>
 
-TraceNext == TraceRun \/ TraceBuf \/ TraceWrite \/ TracePublish \/ TraceFail \/ TraceWaitDone \/ TraceSlice
+(* a decoder started during an earlier run may still be working when the next run begins (the pack was dropped, the
+   decoder keeps its buffer alive until it is done): its events concern a buffer this run never created and are skipped *)
+TraceLeftover ==
+  /\ l <= Len(Rec) /\ Rec[l].ev \in {"Write", "Publish", "Fail", "WaitDone", "Slice"} /\ ~Known(Rec[l].buf)
+  /\ l' = l + 1 /\ UNCHANGED <<bufs, built, drift, cache>>
+
+TraceNext == TraceLeftover \/ TraceRun \/ TraceBuf \/ TraceWrite \/ TracePublish \/ TraceFail \/ TraceWaitDone \/ TraceSlice
              \/ TraceCacheGet \/ TraceBuildPlain \/ TraceReadOk \/ TraceConcDone
 TraceSpec == TraceInit /\ [][TraceNext]_tvars
 Done == (l = Len(Rec) + 1) => PrintT(<<"DRIFT", drift>>)
